@@ -20,11 +20,20 @@ Definition init_obs_of (r : init_out) : init_obs :=
   | ErrCreating n => mkInitObs (asked r) 2 n (names r)
   end.
 
+(* the look-ups the harness makes after Init: GetHook(n) for every n of GetHookNames(),
+   then for the relative path of every discovered file, in load order *)
+Definition index_obs_of (i : input) : list (bytes * bytes) :=
+  let m := hooks_by_name (i_parent i) (i_root i) (i_children i) (beh_of i) in
+  map (fun n => (n, get_hook_path m n))
+      (names (init (i_parent i) (i_root i) (i_children i) (beh_of i))
+       ++ discover (i_parent i) (i_root i) (i_children i)).
+
 Definition model_of (i : input) : obs :=
   mkObs (get_executable_paths (i_parent i) (i_root i) (i_children i))
         (if i_with_init i
          then Some (init_obs_of (init (i_parent i) (i_root i) (i_children i) (beh_of i)))
-         else None).
+         else None)
+        (if i_with_init i then index_obs_of i else []).
 
 Definition model_obs (c : case) : obs := model_of (fst c).
 
@@ -32,8 +41,11 @@ Definition paths_eqb : list bytes -> list bytes -> bool := list_eqb bytes_eqb.
 Definition init_obs_eqb (a b : init_obs) : bool :=
   paths_eqb (io_asked a) (io_asked b) && N.eqb (io_status a) (io_status b)
   && bytes_eqb (io_named a) (io_named b) && paths_eqb (io_names a) (io_names b).
+Definition index_eqb : list (bytes * bytes) -> list (bytes * bytes) -> bool :=
+  list_eqb (fun x y => bytes_eqb (fst x) (fst y) && bytes_eqb (snd x) (snd y)).
 Definition obs_eqb (a b : obs) : bool :=
-  paths_eqb (o_paths a) (o_paths b) && option_eqb init_obs_eqb (o_init a) (o_init b).
+  paths_eqb (o_paths a) (o_paths b) && option_eqb init_obs_eqb (o_init a) (o_init b)
+  && index_eqb (o_index a) (o_index b).
 
 Definition agrees (c : case) : bool := obs_eqb (model_obs c) (snd c).
 
